@@ -2,6 +2,7 @@ import A816.Props.C07
 import A816.Props.C03
 import A816.Props.C05
 import A816.Proofs.LabelCheck
+import A816.Proofs.LabelScopesBin
 /-!
 # C02 — Every label equals the address where the next byte is really emitted
 
@@ -810,4 +811,163 @@ example : LabelCheck.Flat [Node.label "a", .ascii "x", .symbolConst "v" 1, .labe
   simp only [List.mem_cons, List.not_mem_nil, or_false] at hn
   rcases hn with rfl | rfl | rfl | rfl <;> rfl
 
+
+/-! ### no spurious rejection (any nesting of scopes) -/
+
+open LabelCheck LabelScopes Replay in
+/-- the part of the argument that does not depend on the kind of the defining node `n` (a label or an `.incbin`) -/
+theorem check_core (env : Env) (pre : List Node) (n : Node) (name : String) (post : List Node) (r rL : Resolver)
+    (hroot : r.current = 0) (hsize : 0 < r.scopes.size) (hS : ParentsOk r.scopes)
+    (c l : Nat) (hcl : replay r.scopes pre 0 0 = some (c, l))
+    (hdot : NoDot name)
+    (hcode : alookup name (r.scopeAt c).codeSymbols = none)
+    (hfresh1 : name ∉ namesIn symNames Node.isSymbol r.scopes c post c l)
+    (hfresh2 : name ∉ namesIn symNames Node.isLabelOrBinary r.scopes c (pre ++ n :: post) 0 0)
+    (hpass1 : ∀ (r1 : Resolver) (pcA : Address),
+      passLoop env Node.isSymbol (pre ++ n :: post) { r with lastUsed := 0 } r.reloc = .ok (r1, pcA) →
+      ∃ rA pc1, passLoop env Node.isSymbol pre { r with lastUsed := 0 } r.reloc = .ok (rA, pc1) ∧ rA.current < r.scopes.size ∧
+        replay r.scopes pre r.current 0 = some (rA.current, rA.lastUsed) ∧
+        (NoDot name → name ∉ namesIn symNames Node.isSymbol r.scopes rA.current post rA.current rA.lastUsed →
+          alookup name (r1.scopeAt rA.current).labels = some (pc1.logical : Int) ∧
+          alookup name (r1.scopeAt rA.current).symbols = some (pc1.logical : Int)) ∧
+        (r1.scopeAt rA.current).codeSymbols = (r.scopeAt rA.current).codeSymbols ∧
+        Agrees r.scopes r1.scopes ∧ r1.scopes.size = r.scopes.size)
+    (hres : resolveLabels env (pre ++ n :: post) r = .ok rL)
+    (hag : AgreeAll env (pre ++ n :: post) { r with lastUsed := 0 } r.reloc ⟨rL, [], rL.pc, [], [], []⟩)
+    (s1 : EmitState) (hemit : emitLoop env pre ⟨rL, [], rL.pc, [], [], []⟩ = .ok s1) :
+    checkLabel s1.r name s1.r.reloc = .ok () := by
+  unfold resolveLabels at hres
+  simp only at hres
+  cases hp1 : passLoop env Node.isSymbol (pre ++ n :: post) { r with lastUsed := 0 } r.reloc with
+  | error e => simp [hp1] at hres
+  | ok q1 =>
+    obtain ⟨r1, pcA⟩ := q1
+    simp only [hp1] at hres
+    cases hp2 : passLoop env Node.isLabelOrBinary (pre ++ n :: post) (resolverReset r1) (resolverReset r1).reloc with
+    | error e => simp [hp2] at hres
+    | ok q2 =>
+      obtain ⟨r2, pcB⟩ := q2
+      simp only [hp2, Except.ok.injEq] at hres
+      -- pass 1
+      have hc0 : ({ r with lastUsed := 0 } : Resolver).current < r.scopes.size := by
+        show r.current < r.scopes.size; rw [hroot]; exact hsize
+      obtain ⟨rA, pc1, hpre, hcA, hrepA', hlab, hcodeA, hag1, hsz1⟩ := hpass1 r1 pcA hp1
+      rw [hroot, hcl] at hrepA'
+      simp only [Option.some.injEq, Prod.mk.injEq] at hrepA'
+      obtain ⟨hcA', hlA'⟩ := hrepA'
+      rw [← hcA', ← hlA'] at hlab
+      rw [← hcA'] at hcodeA
+      obtain ⟨hl1, hs1⟩ := hlab hdot hfresh1
+      -- pass 2
+      have hc1 : (resolverReset r1).current < r.scopes.size := by show 0 < r.scopes.size; exact hsize
+      obtain ⟨k2, hag2, hsz2, _, hrel2⟩ := passLoop_keepsAt env Node.isLabelOrBinary isLabelOrBinary_not_marker r.scopes hS c _
+        (resolverReset r1) r2 _ pcB hag1 hsz1 hc1 hp2
+      obtain ⟨_, _, _, _, hrel1⟩ := passLoop_keepsAt env Node.isSymbol isSymbol_not_marker r.scopes hS c _
+        { r with lastUsed := 0 } r1 r.reloc pcA (Agrees.refl _) rfl hc0 hp1
+      rw [no_labelNames_pass2] at k2
+      have hfresh2' : name ∉ namesIn symNames Node.isLabelOrBinary r.scopes c (pre ++ n :: post)
+          (resolverReset r1).current (resolverReset r1).lastUsed := hfresh2
+      -- emission of the prefix
+      obtain ⟨hsc, hrepE⟩ := emitLoop_scopes_replay env pre _ s1 hemit
+      have hrLsc : rL.scopes = r2.scopes := by rw [← hres]; rfl
+      have hrepE' : replay r.scopes pre 0 0 = some (s1.r.current, s1.r.lastUsed) := by
+        have e : replay rL.scopes pre 0 0 = some (s1.r.current, s1.r.lastUsed) := by
+          have h0 : rL.current = 0 ∧ rL.lastUsed = 0 := by rw [← hres]; exact ⟨rfl, rfl⟩
+          have := hrepE
+          simp only [h0.1, h0.2] at this
+          exact this
+        rw [hrLsc] at e
+        rw [← replay_congr r.scopes r2.scopes hag2 hsz2 pre]; exact e
+      rw [hcl] at hrepE'
+      simp only [Option.some.injEq, Prod.mk.injEq] at hrepE'
+      have hcS : s1.r.current = c := hrepE'.1.symm
+      have hcurS : s1.r.cur = r2.scopeAt c := by
+        unfold Resolver.cur Resolver.scopeAt; rw [hsc, hrLsc, hcS]
+      -- the address
+      have hrel0 : (⟨rL, [], rL.pc, [], [], []⟩ : EmitState).r.reloc = r.reloc := by
+        show rL.reloc = r.reloc
+        rw [← hres]
+        show r2.reloc = r.reloc
+        rw [hrel2]; exact hrel1
+      have haddr := pass_addresses_agree env pre { r with lastUsed := 0 } rA r.reloc pc1 _ s1 hrel0
+        (agreeAll_prefix env pre (n :: post) _ _ _ hag) hpre hemit
+      have hR : (resolverReset r1).scopeAt c = r1.scopeAt c := rfl
+      have hlabF : alookup name s1.r.cur.labels = some (s1.r.reloc.logical : Int) := by
+        rw [hcurS, k2.labels name (by simp), hR, hl1, haddr]
+      have hsymF : alookup name s1.r.cur.symbols = some (s1.r.reloc.logical : Int) := by
+        rw [hcurS, k2.symbols name hfresh2' hdot, hR, hs1, haddr]
+      have hcdF : alookup name s1.r.cur.codeSymbols = none := by
+        rw [hcurS, k2.code, hR, hcodeA]; exact hcode
+      unfold checkLabel
+      simp only [hlabF, ↓reduceIte]
+      have hv : s1.r.valueFor name = .int (s1.r.reloc.logical : Int) := by
+        unfold Resolver.valueFor
+        simp only [Resolver.valueForAux]
+        have e1 : (s1.r.scopes.getD s1.r.current default) = s1.r.cur := rfl
+        rw [e1]
+        cases hpp : s1.r.cur.parent with
+        | none => simp only [Resolver.getItem, hcdF, hsymF]
+        | some p => simp only [hsymF, Option.isSome_some, Bool.true_or, ↓reduceIte, Resolver.getItem, hcdF]
+      rw [hv]
+      simp
+
+open LabelCheck LabelScopes Replay in
+/-- **the label check never fires on a program whose passes agree** (any nesting of blocks, macros, loops, named
+    scopes): let a label node stand after the prefix `pre` of a node list; `(c, l)` is where the positional replay of
+    `pre` from the root arrives, i.e. the scope the label is visited in.  If the passes agree on every node (`AgreeAll`),
+    the name contains no `.`, no later node visited in scope `c` defines it, no `=` symbol visited in scope `c`
+    defines it, and it is not a code-block parameter of scope `c`, then the emission-time check of the label succeeds. -/
+theorem no_spurious_rejection (env : Env) (pre : List Node) (name : String) (post : List Node) (r rL : Resolver)
+    (hroot : r.current = 0) (hsize : 0 < r.scopes.size) (hS : ParentsOk r.scopes)
+    (c l : Nat) (hcl : replay r.scopes pre 0 0 = some (c, l))
+    (hdot : NoDot name)
+    (hcode : alookup name (r.scopeAt c).codeSymbols = none)
+    (hfresh1 : name ∉ namesIn symNames Node.isSymbol r.scopes c post c l)
+    (hfresh2 : name ∉ namesIn symNames Node.isLabelOrBinary r.scopes c (pre ++ .label name :: post) 0 0)
+    (hres : resolveLabels env (pre ++ .label name :: post) r = .ok rL)
+    (hag : AgreeAll env (pre ++ .label name :: post) { r with lastUsed := 0 } r.reloc ⟨rL, [], rL.pc, [], [], []⟩)
+    (s1 : EmitState) (hemit : emitLoop env pre ⟨rL, [], rL.pc, [], [], []⟩ = .ok s1) :
+    checkLabel s1.r name s1.r.reloc = .ok () :=
+  check_core env pre (.label name) name post r rL hroot hsize hS c l hcl hdot hcode hfresh1 hfresh2
+    (fun r1 pcA hp1 => pass1_label_scoped env r.scopes hS pre name post { r with lastUsed := 0 } r1 r.reloc pcA (Agrees.refl _) rfl
+      (by show r.current < r.scopes.size; rw [hroot]; exact hsize) hp1)
+    hres hag s1 hemit
+
+open LabelCheck LabelScopes Replay in
+/-- the same for the start symbol of an `.incbin` (the other position-derived symbol the check guards) -/
+theorem no_spurious_rejection_incbin (env : Env) (pre : List Node) (content : List Nat) (base : String) (post : List Node) (r rL : Resolver)
+    (hroot : r.current = 0) (hsize : 0 < r.scopes.size) (hS : ParentsOk r.scopes)
+    (c l : Nat) (hcl : replay r.scopes pre 0 0 = some (c, l))
+    (hdot : NoDot base)
+    (hcode : alookup base (r.scopeAt c).codeSymbols = none)
+    (hfresh1 : base ∉ namesIn symNames Node.isSymbol r.scopes c post c l)
+    (hfresh2 : base ∉ namesIn symNames Node.isLabelOrBinary r.scopes c (pre ++ .binary content base :: post) 0 0)
+    (hres : resolveLabels env (pre ++ .binary content base :: post) r = .ok rL)
+    (hag : AgreeAll env (pre ++ .binary content base :: post) { r with lastUsed := 0 } r.reloc ⟨rL, [], rL.pc, [], [], []⟩)
+    (s1 : EmitState) (hemit : emitLoop env pre ⟨rL, [], rL.pc, [], [], []⟩ = .ok s1) :
+    checkLabel s1.r base s1.r.reloc = .ok () :=
+  check_core env pre (.binary content base) base post r rL hroot hsize hS c l hcl hdot hcode hfresh1 hfresh2
+    (fun r1 pcA hp1 => pass1_binary_scoped env r.scopes hS pre content base post { r with lastUsed := 0 } r1 r.reloc pcA (Agrees.refl _) rfl
+      (by show r.current < r.scopes.size; rw [hroot]; exact hsize) hp1)
+    hres hag s1 hemit
+
+open A816 LabelCheck LabelScopes Replay in
+/-- the side conditions distinguish scopes: in `{ a: } a:` the inner `a` (visited in scope 1) is not disturbed by the outer
+    `a` (visited in scope 0), and the replay of the prefix `[ScopeNode]` from the root arrives in scope 1 -/
+example :
+    let S : Array ScopeRec := #[{ kind := .plain, parent := none }, { kind := .plain, parent := some 0 }]
+    replay S [Node.scopeEnter] 0 0 = some (1, 1) ∧ ParentsOk S ∧ NoDot "a" ∧
+    "a" ∉ namesIn symNames Node.isSymbol S 1 [Node.scopePop, .label "a"] 1 1 ∧
+    "a" ∉ namesIn symNames Node.isLabelOrBinary S 1 [Node.scopeEnter, .label "a", .scopePop, .label "a"] 0 0 := by
+  refine ⟨by decide, ?_, by unfold NoDot; decide, by decide, by decide⟩
+  intro i p h
+  match i with
+  | 0 => simp at h
+  | 1 =>
+    have : p = 0 := by simpa using h.symm
+    subst this; decide
+  | (n + 2) =>
+    have : ¬ (n + 2 < 2) := by omega
+    simp [Array.getD, this] at h
+    cases h
 end A816.C02
